@@ -149,6 +149,9 @@ pub const CORPUS: &[&str] = &[
     "SELECT id, age FROM users WHERE (age > 30 AND vip) OR (age <= 30 AND NOT vip) ORDER BY id",
     "SELECT id FROM users WHERE age > 30 AND (vip OR score < 0) ORDER BY id",
     "SELECT id, amount FROM orders WHERE amount > -5.5 AND amount < 1000000 AND qty <> 0 ORDER BY id",
+    // one CTE read twice (a shared node of the relation graph)
+    "WITH t AS (SELECT id, age FROM users WHERE age > 20) SELECT a.id, b.age FROM t AS a JOIN t AS b ON a.id = b.id ORDER BY a.id",
+    "WITH t AS (SELECT city, count(*) AS c FROM users GROUP BY city) SELECT city, c FROM t UNION ALL SELECT city, c FROM t",
     // postfix / infix predicates over compound operands
     "SELECT id FROM users WHERE (age > 30 AND vip) IS NULL ORDER BY id",
     "SELECT id, (age > 30 OR vip) IS NOT NULL AS n, (score + 1) IS NULL AS m FROM users ORDER BY id",
